@@ -654,12 +654,14 @@ def pumpAll (st : State) : List Nat → State × List Frame
     let (st2, fs2) := pumpAll st1 ids
     (st2, fs1 ++ fs2)
 
-/-- a scripted operation followed by the pump; returns the frames and whether the connection
-was closed / a panic was reached during it. -/
+/-- a scripted operation followed by the pump. A `RoundTrip` that was waiting for a slot can
+start during the pump (a finished upload frees the slot): its stream is pumped in a second
+pass (streams are only ever appended). -/
 def scriptStep (st : State) (op : Op) : State × List Frame :=
   let (st1, fs1) := step st op
   let (st2, fs2) := pumpAll st1 (st1.streams.map (·.id))
-  (st2, fs1 ++ fs2)
+  let (st3, fs3) := pumpAll st2 ((st2.streams.drop st1.streams.length).map (·.id))
+  (st3, fs1 ++ fs2 ++ fs3)
 
 def scriptRun (st : State) : List Op → List (List Frame × Bool × Bool)
   | [] => []
